@@ -978,8 +978,14 @@ fn judge(base: usize, edits: &[&Edit], report: &mut Report) {
         Err(p) => {
             report.add_count("outcome_panic", 1);
             // the key names the site and the smallest part of the edits which still panics there
-            let site = panic_site(&p);
-            let panics_there = |sub: &[&Edit]| build(base, sub).is_some_and(|(pr, m)| read(&pr, &m).err().is_some_and(|e| panic_site(&e) == site));
+            // file and kind of the panic, without line numbers and values (an unrelated edit of that file must not rename the finding)
+            let site_of = |msg: &str| -> String {
+                let file = panic_site(msg).rsplit_once(':').map(|(f, _)| f.to_string()).unwrap_or_default();
+                let text: String = msg.split(" @ ").next().unwrap_or("").chars().filter(|c| !c.is_ascii_digit()).take(40).collect();
+                format!("{file}:{}", text.trim().replace(':', ""))
+            };
+            let site = site_of(&p);
+            let panics_there = |sub: &[&Edit]| build(base, sub).is_some_and(|(pr, m)| read(&pr, &m).err().is_some_and(|e| site_of(&e) == site));
             let class = |n: &str| n.rsplit(':').next().unwrap_or(n).to_string();
             let cause: Vec<String> = if panics_there(&[]) {
                 vec!["base-document".into()]
